@@ -90,39 +90,58 @@ class SpecMemory:
 
 
 class SpecWordMemory:
-    """S-MEM restricted to word-contained accesses, with the logical contents kept per 32-bit word
-    (W: dict word address -> UInt32, absent = 0).  Used below the cache systems, whose block fills and write-backs are
-    aligned word accesses: one map access per word instead of four.  Data refinement of SpecMemory:
-    W[w] = sum(L[w+k] * 256**k); an access that is not word-contained is outside this class (raises ValueError --
-    the cache systems reject such accesses before they reach the lower memory, which C03 proves)."""
+    """S-MEM (not word_contained) with the logical contents kept per 32-bit word (W: dict aligned word address ->
+    UInt32, absent = 0): the data refinement W[w] = sum(L[w+k] * 256**k) of SpecMemory (lemma: contracts/lemma_wordmem).
+    Used below the cache systems, whose block fills and write-backs are aligned word accesses: one map access per word
+    instead of four.  An access that is not word-contained is carried out byte by byte in ascending order exactly as
+    SpecMemory does."""
 
     def __init__(self, W, lo):
+        assert lo % 4 == 0
         self.W = W
         self.lo = lo
 
     def _word(self, w):
         return int(self.W.get(w, UInt32(0)))
 
-    def _split(self, address, n):
+    def _check(self, a):
+        if a < self.lo:
+            raise MemoryAddressError(address=a, min_address_incl=self.lo, max_address_incl=TOP - 1, memory_type="data memory")
+
+    def _read(self, address, n):
         from pyvc.api import split
         a = address % TOP
         lane = split(a % 4)
-        if lane + n > 4:
-            raise ValueError("SpecWordMemory: access crosses a word boundary")
-        if a < self.lo:
-            raise MemoryAddressError(address=a, min_address_incl=self.lo, max_address_incl=TOP - 1, memory_type="data memory")
-        return a - lane, lane
+        if lane + n <= 4:
+            self._check(a)
+            return (self._word(a - lane) // 256 ** lane) % 256 ** n
+        v = 0
+        for i in range(n):
+            ai = (address + i) % TOP
+            self._check(ai)
+            li = (lane + i) % 4
+            v = v + ((self._word(ai - li) // 256 ** li) % 256) * 256 ** i
+        return v
 
-    def _read(self, address, n):
-        w, lane = self._split(address, n)
-        return (self._word(w) // 256 ** lane) % 256 ** n
-
-    def _write(self, address, n, value):
-        w, lane = self._split(address, n)
+    def _put(self, w, lane, n, value):
         old = self._word(w)
         low = old % 256 ** lane
         high = old // 256 ** (lane + n)
         self.W[w] = UInt32(low + (value % 256 ** n) * 256 ** lane + high * 256 ** (lane + n))
+
+    def _write(self, address, n, value):
+        from pyvc.api import split
+        a = address % TOP
+        lane = split(a % 4)
+        if lane + n <= 4:
+            self._check(a)
+            self._put(a - lane, lane, n, value)
+            return
+        for i in range(n):
+            ai = (address + i) % TOP
+            self._check(ai)
+            li = (lane + i) % 4
+            self._put(ai - li, li, 1, (value // 256 ** i) % 256)
 
     def read_byte(self, address, update_statistics=True):
         return UInt8(self._read(address, 1))
